@@ -310,6 +310,100 @@ def access_harness(which):
     return harness
 
 
+class _Props(HasTraits):
+    """properties with getter/setter/validator of every arity the C core distinguishes (0-3 arguments)"""
+    backing = Any(7)
+    p0 = Property()
+    p1 = Property()
+    p2 = Property()
+    p3 = Property()
+    pv = Property(Int)            # validated: setattr_validate_property + setattr_validate<n> + setattr_property<n>
+    ro = Property()               # no setter
+
+    def _get_p1(self):
+        return self.backing
+
+    def _set_p1(self, value):
+        self.backing = value
+
+    def _get_p2(self, name):
+        return (name, self.backing)
+
+    def _set_p2(self, name, value):
+        self.backing = value
+
+    def _get_pv(self):
+        return self.backing
+
+    def _set_pv(self, value):
+        if value == 13:
+            raise RuntimeError("setter failed")
+        self.backing = value
+
+    def _get_ro(self):
+        return 1
+
+
+def _p0_get():
+    return 0
+
+
+def _p0_set():
+    return None
+
+
+def _p3_get(obj, name, trait):
+    return name
+
+
+def _p3_set(obj, name, value):
+    obj.__dict__["_p3"] = value
+
+
+from traits.api import Trait as _Trait
+from traits.ctrait import CTrait as _CTrait
+
+
+def _mk_raw_property(get, get_n, set_, set_n):
+    """a property CTrait with the given getter/setter arities, built through the documented CTrait.property_fields setter"""
+    t = _CTrait(4)
+    t.property_fields = (get, set_, None)
+    return t
+
+
+def property_harness(ex):
+    o = _Props()
+    # arities 0 and 3 are not produced by the Property() factory for methods; build them through CTrait.property_fields
+    o.add_trait("p0", _mk_raw_property(_p0_get, 0, _p0_set, 0))
+    o.add_trait("p3", _mk_raw_property(_p3_get, 3, _p3_set, 3))
+    name = ["p0", "p1", "p2", "p3", "pv", "ro"][ex.choice("prop", 6)]
+    op = ["read", "write", "delete", "write_invalid", "write_setter_fails"][ex.choice("op", 5)]
+    it = cenv.new_interp()
+    os_ = cenv.hastraits_struct(it, o)
+    it.st.rc.clear()
+    problem = None
+    r = NULL
+    try:
+        with cenv.python_side_env():
+            if op == "read":
+                r = it.call("has_traits_getattro", [os_, name])
+                if r is NULL and it.st.err is None:
+                    problem = "NULL without an exception"
+            else:
+                val = {"write": 5, "delete": NULL, "write_invalid": "not-an-int", "write_setter_fails": 13}[op]
+                rc = it.call("has_traits_setattro", [os_, name, val])
+                if rc != 0 and it.st.err is None:
+                    problem = "-1 without an exception"
+                r = NULL
+    except MemSafety as e:
+        problem = str(e)
+    ex.check(problem is None, "property get / set / delete paths are memory-safe and follow the error convention")
+    if problem is None:
+        bad = neutral(it, r)
+        ex.check(not bad, "property get / set / delete paths are reference-neutral")
+    return {"prop": name, "op": op}
+
+
 def notify_mutation_harness(ex):
     """a handler that removes itself (or adds another one) while call_notifiers is dispatching"""
     trait_level = ex.flag("trait_level_handler_too")
@@ -419,6 +513,9 @@ def obligations(tier, build):
                               leverage="choice feasibility only"))
     obs.append(Obligation("access/notify-list-mutation", notify_mutation_harness, stubs=STUBS, witness_every=0,
                           bounds={"handlers": 3, "mutation": "self-removal / removal of the next / addition, during dispatch"},
+                          leverage="choice feasibility only"))
+    obs.append(Obligation("access/property", property_harness, stubs=STUBS, witness_every=0,
+                          bounds={"getter/setter arities": "0-3", "validated property": "yes", "operations": "read, write, delete, invalid value, failing setter"},
                           leverage="choice feasibility only"))
     obs.append(Obligation("access/delete", delete_harness, stubs=STUBS, witness_every=0,
                           bounds={"default": "dynamic method, may raise"}, leverage="choice feasibility only"))
